@@ -36,10 +36,10 @@ type Prog struct {
 
 // LoadOpts tunes loading.
 type LoadOpts struct {
-	Repo    string
-	Overlay map[string][]byte
-	Tests   bool
-	Env     []string /* Extra environment, e.g. GOOS=darwin. */
+	Repo      string
+	Overlay   map[string][]byte
+	Tests     bool
+	Env       []string /* Extra environment, e.g. GOOS=darwin. */
 	AllSyntax bool
 }
 
